@@ -18,14 +18,24 @@ RULE = ('one real Dispatcher + SecNode with 1..3 modules (exported / hidden para
         'running a script of activate / deactivate (global, module, parameter scope, also unknown module / unknown or '
         'hidden parameter / with data) / *IDN? / the non-SECoP action _ident / close, and 0..2 driver threads calling Module.announceUpdate with '
         'globally unique values; all threads run under the deterministic scheduler and are interleaved at every '
-        'synchronisation point (dispatcher lock, module updateLock, make_update, send_reply, receive); schedules: '
-        'systematic depth-first enumeration with a preemption bound on small scenarios, then seeded random / sticky '
+        'synchronisation point (dispatcher lock, module updateLock, make_update, send_reply, receive, and inside '
+        'Dispatcher.subscribe / reset_connection before every set.add / set.discard of the connection - hooked through '
+        '__hash__ of the fake connections); schedules: '
+        'systematic depth-first enumeration with a preemption bound on small scenarios, directed schedules that place '
+        'the disconnect / identification of one connection at every switch point of the activation of another one '
+        '(and inside its own reset loop), then seeded random / sticky '
         'random / random preemption points; non-trivial = at least one update message was delivered to a connection; '
         'distinct = distinct (node, scripts, executed step sequence)')
 ASSUMPTIONS = [
     'granularity: threads are interleaved at synchronisation points (acquire of Dispatcher._lock / Module.updateLock '
-    '(driver threads and handle_activate), entry of make_update, send_reply and receive of the connection); preemption between two bytecodes of a region '
-    'without such a point (line level) is not explored',
+    '(driver threads and handle_activate), entry of make_update, send_reply and receive of the connection, and - inside '
+    'Dispatcher.subscribe and Dispatcher.reset_connection - before every set operation that hashes the connection: '
+    'the add after the lookup-or-create of the per-event set, one discard per event, the discard from the generic '
+    'subscribers); the set operations of unsubscribe and the add to the generic subscribers (both under the dispatcher '
+    'lock) are not switch points; preemption between two bytecodes of a region without such a point (line level) is '
+    'not explored',
+    'the hash of a fake connection is a small integer derived from the case (not its address), so that the iteration '
+    'order of listener sets is reproducible',
     'every announced value differs from the cached one (globally unique values), so the omit_unchanged_within filter '
     'of announceUpdate never drops an update; error updates (readerror) are not generated',
     'connections are RequestHandler subclasses whose send_reply records the message (no socket, no send_lock); a '
@@ -93,6 +103,8 @@ def _policy(spec):
         return dsched.Preempt(spec['points'])
     if k == 'follow':
         return Follow(spec['decisions'])
+    if k == 'segments':
+        return Segments(spec['segments'])
     raise ValueError(k)
 
 
@@ -113,6 +125,40 @@ class Follow:
         return current if current in enabled else enabled[0]
 
 
+class Segments:
+    """directed schedule: a list of segments [thread, label, nth] - run `thread` until it is parked at `label` for the
+    nth time (label None: until it has finished or is blocked), then go on with the next segment; a segment whose thread
+    is not enabled is skipped; after the last segment non-preemptive (creation order).  Used to place the disconnect /
+    identification of one connection at every switch point inside the activation of another one (and vice versa)."""
+
+    def __init__(self, segments):
+        self.segs = [list(x) for x in segments]
+        self.i = 0
+        self.count = 0
+        self.sched = None          # set by run_case
+
+    def __call__(self, n, enabled, current):
+        s = self.sched
+        while self.i < len(self.segs):
+            th, lab, nth = self.segs[self.i]
+            if not any(x.name == th for x in s.threads):      # not spawned yet
+                break
+            if th not in enabled:
+                self.i += 1
+                self.count = 0
+                continue
+            if lab is not None:
+                t = next(x for x in s.threads if x.name == th)
+                if s.parked_label(t) == lab:
+                    self.count += 1
+                    if self.count >= nth:
+                        self.i += 1
+                        self.count = 0
+                        continue
+            return th
+        return current if current in enabled else enabled[0]
+
+
 def run_case(case, policy=None):
     import frappy.protocol.dispatcher as D
     import frappy.secnode as SN
@@ -125,7 +171,10 @@ def run_case(case, policy=None):
 
     generalConfig.testinit()
     log = _logger()
-    s = dsched.Scheduler(policy or _policy(case['sched']), max_steps=4000)
+    policy = policy or _policy(case['sched'])
+    s = dsched.Scheduler(policy, max_steps=4000)
+    if isinstance(policy, Segments):
+        policy.sched = s
     node = case['node']
     events = []          # global order of everything observable
     orig_make_update = D.make_update
@@ -143,6 +192,37 @@ def run_case(case, policy=None):
         srv.dispatcher = disp = D.Dispatcher('dispatcher', log, {}, srv)
         disp._lock = s.RLock()
         disp._lock.name = 'disp'
+        # switch points inside the table operations: Dispatcher.subscribe (lookup-or-create of the per-event set, then
+        # set.add) and Dispatcher.reset_connection (one set.discard per event, then the discard from the generic
+        # subscribers) hash the connection object once per set operation, BEFORE the operation takes effect; while a
+        # thread is inside one of the two methods (the real code, called through a wrapper on the instance) the
+        # __hash__ of the fake connections is a synchronisation point.  set_all_log_levels (remote logging, not
+        # modelled) runs with the hook switched off.
+        armed = {}
+        # hash values of the fake connections: small distinct integers in an order derived from the case, so that the
+        # iteration order of the listener sets (= order of the sends of a broadcast) is the same in every process that
+        # runs this case (replays are exact) and still varies between cases
+        import json
+        import zlib
+        hashval = list(range(1, len(case['conns']) + 1))
+        random.Random(zlib.crc32(json.dumps([node, case['conns'], case['upds']], sort_keys=True).encode())).shuffle(hashval)
+
+        def arm(method, label):
+            orig = getattr(disp, method)
+
+            def wrapper(*a, **k):
+                me = s.current_thread()
+                me = me.name if me is not None else None
+                prev = armed.get(me)
+                armed[me] = label
+                try:
+                    return orig(*a, **k)
+                finally:
+                    armed[me] = prev
+            setattr(disp, method, wrapper)
+        arm('subscribe', 'add')
+        arm('reset_connection', 'discard')
+        arm('set_all_log_levels', None)
         mods = []
         where = {}          # (module name, exported name) -> (mi, pi)
         for mi, md in enumerate(node):
@@ -184,6 +264,16 @@ def run_case(case, policy=None):
                 self.pos = 0
                 self.pend = None
                 RequestHandler.__init__(self, None, ('conn', idx), srv)
+
+            def __hash__(self):
+                me = s.current_thread()
+                lab = armed.get(me.name) if me is not None else None
+                if lab:
+                    s.switch(lab)
+                return hashval[self.idx]
+
+            def __eq__(self, other):
+                return self is other
 
             def format(self):
                 return f'conn{self.idx}'
@@ -255,6 +345,7 @@ def run_case(case, policy=None):
                               for mi, m in enumerate(mods)]
             final['active'] = sorted(cid(c) for c in disp._active_connections)
             final['subs'] = sorted([k, sorted(cid(c) for c in v)] for k, v in disp._subscriptions.items() if v)
+            final['keys'] = sorted(disp._subscriptions)
             final['connections'] = sorted(cid(c) for c in disp._connections)
             final['nevents'] = len(events)
 
@@ -377,6 +468,10 @@ def enc_lab(lab, info):
         return f"(LBuild {enc_pid(*info['p'])})"
     if lab == 'send':
         return f"(LSend {gal.nat(info['to'])})"
+    if lab == 'add':
+        return 'LAdd'
+    if lab == 'discard':
+        return 'LDisc'
     raise ValueError(f'label outside the model: {lab}')
 
 
@@ -395,8 +490,10 @@ def encode(case, obs):
     fin = obs['final']
     cache = '; '.join(f'({enc_pid(mi, pi)}, {gal.nat(v)})' for mi, row in enumerate(fin['cache']) for pi, v in enumerate(row))
     subs = '; '.join(f'({gal.nat(c)}, {enc_scope(scope_of_spec(case, k))})' for k, cs in fin['subs'] for c in cs)
+    keys = gal.lst(fin['keys'], lambda k: enc_scope(scope_of_spec(case, k)))
     return ('{| k_node := %s; k_conns := %s; k_upds := %s; k_trace := [%s]; k_logs := %s; k_cache := [%s]; '
-            'k_actv := %s; k_subs := [%s] |}' % (nd, conns, upds, trace, logs, cache, gal.lst(fin['active'], gal.nat), subs))
+            'k_actv := %s; k_subs := [%s]; k_keys := %s |}'
+            % (nd, conns, upds, trace, logs, cache, gal.lst(fin['active'], gal.nat), subs, keys))
 
 
 def model_result_term(case, obs):
@@ -759,6 +856,42 @@ SCENARIOS = [
 ]
 
 
+# a disconnect / identification of one connection inside the table operations of another one (Dispatcher.subscribe is two
+# steps: lookup-or-create of the per-event set, add; reset_connection one discard per event) and vice versa
+RACE = [
+    {'node': ONE, 'conns': [[['act', ['m', 0]], ['close']], [['act', ['m', 0]]]], 'upds': [[[0, 0, 1]]]},
+    {'node': ONE, 'conns': [[['act', ['p', 0, 0]], ['close']], [['act', ['p', 0, 0]]]], 'upds': [[[0, 0, 1]]]},
+    {'node': ONE, 'conns': [[['act', ['m', 0]], ['idn']], [['act', ['m', 0]], ['close']]], 'upds': [[[0, 0, 1]]]},
+    {'node': TWO, 'conns': [[['act', ['m', 0]], ['act', ['p', 0, 1]], ['close']],
+                            [['act', ['p', 0, 1]], ['deact', ['p', 0, 1]], ['act', ['m', 0]]]], 'upds': [[[0, 1, 1], [0, 0, 2]]]},
+    {'node': TWO, 'conns': [[['act', ['p', 1, 0]], ['close']], [['act', ['m', 1]], ['close']], [['act', ['p', 1, 0]], ['act', ['m', 1]]]],
+     'upds': [[[1, 0, 1]]]},
+]
+
+
+def race_cases():
+    """directed schedules: connection A runs until it waits for its k-th request, B until it is parked for the n-th time
+    at a table operation / lock / send, then A (optionally only up to its n2-th discard, then B), then the rest"""
+    cases = []
+    for sc in RACE:
+        nc = len(sc['conns'])
+        for a in range(nc):
+            for b in range(nc):
+                if a == b:
+                    continue
+                A, B = f'c{a}', f'c{b}'
+                for k in range(1, len(sc['conns'][a]) + 1):
+                    for lab in ('add', 'discard', 'acquire:disp', 'send'):
+                        for n in (1, 2):
+                            cases.append(dict(sc, sched={'kind': 'segments', 'segments': [
+                                [A, 'recv', k], [B, lab, n], [A, None, 1], [B, None, 1]]}))
+                            if lab in ('add', 'discard'):
+                                for n2 in (1, 2):
+                                    cases.append(dict(sc, sched={'kind': 'segments', 'segments': [
+                                        [A, 'recv', k], [B, lab, n], [A, 'discard', n2], [B, None, 1], [A, None, 1]]}))
+    return cases
+
+
 def _explore_one(args):
     """systematic depth-first enumeration of the schedules of one scenario with a preemption bound (runs the real
     code under the scheduler); returns explicit decision lists"""
@@ -801,9 +934,10 @@ def gen_cases(seed, tier):
     n = {'quick': 2200, 'thorough': 15000, 'search': 15000}[tier]
     cases = [rand_case(rng) for _ in range(n)]
     # the racing scenarios also under many random schedules
-    for sc in SCENARIOS:
+    for sc in SCENARIOS + RACE:
         for _ in range(40 if tier == 'quick' else 400):
             cases.append(dict(sc, sched=rand_sched(rng)))
+    cases.extend(race_cases())
     if tier == 'quick':
         cases.extend(systematic_cases(2, 150, SCENARIOS))
     else:
@@ -813,7 +947,7 @@ def gen_cases(seed, tier):
 
 def shrink(case):
     conns, upds = case['conns'], case['upds']
-    if case['sched']['kind'] == 'explicit':
+    if case['sched']['kind'] in ('explicit', 'segments'):
         return
     for i in range(len(conns)):
         if len(conns) > 1:
